@@ -10,7 +10,7 @@
    `history_ok H tx cm n`: transactions 1..n read back through commit log cm from tx log tx are
    present, have ids 1..n without gap, each PrevAlh is the Alh recorded for its predecessor and each
    recorded Alh is the record's own (consistent hash chain). *)
-From V Require Import Crash.Protocol Crash.Theorems Crash.Progress Crash.Refuted Crash.Examples.
+From V Require Import Crash.Protocol Crash.Theorems Crash.Progress Crash.TreeProofs Crash.Refuted Crash.Examples.
 
 (* Write ordering (ack_implies_durable): in EVERY reachable state — any interleaving, any number of
    earlier crashes and recoveries — every acknowledged transaction (id <= acked) has its commit-log
@@ -29,7 +29,7 @@ Theorem C03_ack_implies_durable :
 Proof. exact ack_implies_durable. Qed.
 Print Assumptions C03_ack_implies_durable.
 
-(* Crash safety (logs AND values; the hash-tree part of the full statement is refuted below):
+(* Crash safety (logs AND values; the hash-tree part is C03_crash_safety_tree below):
    for EVERY reachable state and EVERY crash image of it (per file: any prefix of the un-fsynced
    writes, torn last write, stale bytes past rewound offsets as they are), recovery succeeds, is
    again a reachable state ready for commits (idle, hash tree re-linked to the precommitted id) whose
@@ -58,7 +58,7 @@ Theorem C03_backlog_is_committed :
   forall (H : bytes -> bytes), (forall x, length (H x) = 32%nat) ->
   forall (c : cfg) (nv : nat) (s : st),
     c_prealloc c = false -> 0 < c_thld c -> reach H c nv s ->
-    phase_ s = PIdle -> committed s < precommitted s ->
+    phase_ s = PIdle -> asize s = precommitted s -> committed s < precommitted s ->
     exists s', run H s (sync_cycle nv) = Ok s' /\ reach H c nv s' /\
       committed s' = precommitted s /\ acked s' = precommitted s /\ precommitted s' = precommitted s /\
       phase_ s' = PIdle /\ asize s' = asize s.
@@ -105,18 +105,21 @@ Theorem C03_crash_during_recovery :
 Proof. exact crash_during_recovery. Qed.
 Print Assumptions C03_crash_during_recovery.
 
-(* REFUTED (known finding B; still present after fix 2077e08, which resets the tree to the COMMITTED
-   id: the stale leaf sits at a committed id): the FULL statement requires the recovered hash tree to
-   hold the Alh of transaction k at leaf k.  The tree fsyncs on its own threshold, possibly ahead of
-   the tx log, and its ResetSize is not durable: after two crashes there is a reachable idle state whose tree has
-   exactly as many leaves as there are transactions ("binary-linking up to date") while leaf 1 is the
-   Alh of a transaction that was lost. *)
-Theorem C03_crash_safety_tree_refuted :
-  exists (c : cfg) (nv : nat) (s : st),
-    c_prealloc c = false /\ c_ahtsync c = false /\ reach Hh c nv s /\ phase_ s = PIdle /\
-    committed s = 1 /\ acked s = 1 /\ asize s = precommitted s /\ tree_matches s = false.
-Proof. exact tree_refuted. Qed.
-Print Assumptions C03_crash_safety_tree_refuted.
+(* Crash safety, hash-tree part (the code since fix b260503: store.sync() fsyncs the tree after the
+   tx log and before the commit entries are appended; model switch c_ahtsync = true, which is what
+   the correspondence run compares with the code: Tie.C03.repair_applied): in EVERY reachable state —
+   hence in every recovered state, after any number of crashes, also during recovery — every leaf k
+   of the tree (1 <= k <= tree size) is the Alh of transaction k.  Together with
+   C03_crash_safety_values (tree size = precommitted id after recovery) this completes the
+   crash-safety statement for stores without PreallocFiles.  (For the code before b260503 the
+   statement was false: Crash/Refuted.v tree_refuted, known finding B, now fixed.) *)
+Theorem C03_crash_safety_tree :
+  forall (H : bytes -> bytes), (forall x, length (H x) = 32%nat) ->
+  forall (c : cfg) (nv : nat) (s : st),
+    c_prealloc c = false -> 0 < c_thld c -> c_ahtsync c = true -> reach H c nv s ->
+    forall k, 1 <= k <= asize s -> tree_leaf s k = tx_alh H s k /\ len (tree_leaf s k) = 32.
+Proof. exact tree_ok. Qed.
+Print Assumptions C03_crash_safety_tree.
 
 (* REFUTED (known finding C): with PreallocFiles the commit-log size is not trimmed to a multiple of
    the entry size; a partially written entry (write buffer flushed inside the entry, or torn write)
